@@ -43,3 +43,10 @@ class Socket(object):
 
     def close(self):
         pass
+
+
+class PolledSocket(Socket):
+    """the same connection seen through poll("recv"): true exactly while the peer's octets are not used up (then
+    the connection is closed and poll returns false); recv() after a true poll returns a non-empty fragment"""
+    def poll(self, event, timeout=None):
+        return self.pos < len(self.inp)
